@@ -229,8 +229,11 @@ def eval_points(segs, observances, lo, hi):
     allb = sorted({s[0] for s in segs} | set(ons))
     for a, b in zip(allb, allb[1:]):
         pts.add(a + (b - a) / 2)
-    first_on = ons[0] if ons else lo
-    return sorted(p.replace(microsecond=0) for p in pts if max(lo, first_on) <= p < hi)
+    # the window starts at `lo`: the component has to answer from there on (its first onset is never later than that)
+    pts.update((lo, lo + timedelta(seconds=1)))
+    if ons and ons[0] > lo:
+        pts.add(lo + (ons[0] - lo) / 2)
+    return sorted(p.replace(microsecond=0) for p in pts if lo <= p < hi)
 
 
 def run_case(case):
@@ -455,9 +458,9 @@ def run(ctx):
     ctx.rule = ("E-dom: every zone id (%d zoneinfo, %d pytz; quick tier: all zoneinfo zones, a seed-rotated third of the pytz zones on the default window; regeneration (4) for a seed-rotated third of the zoneinfo zones) x both providers x windows %s: well-formedness, RFC onset "
                 "interpretation and the converted zone vs the source at every point of the partition induced by source breakpoints "
                 "and generated onsets (+-1s and interior points), regeneration. non-trivial = zone with at least one transition in the "
-                "window. Windows whose first / last date is the local date of the zone's own first transition of 2019 (thorough: 1975, 1995, 2019; quick: a seed-rotated half of the zoneinfo zones). E-hist: for 10 zones (incl. those on which the providers' databases disagree) generate / switch provider / generate / switch back / generate, every result judged against the then-active provider's zone." % (len(zi), len(pz), [f"{a}..{b}" for a, b in windows][:4]))
+                "window. Windows whose first / last date is the local date of the zone's own first transition of 2019 (thorough: 1975, 1995, 2019; quick: a seed-rotated half of the zoneinfo zones). Two-year windows starting on 1 July / 15 January (inside northern / southern daylight time) for every zone (quick: all zoneinfo zones, a seed-rotated eighth of the pytz zones). E-hist: for 10 zones (incl. those on which the providers' databases disagree) generate / switch provider / generate / switch back / generate, every result judged against the then-active provider's zone." % (len(zi), len(pz), [f"{a}..{b}" for a, b in windows][:4]))
     ctx.bounds = {"windows": [f"{a}..{b}" for a, b in windows], "zoneinfo_zones": len(zi), "pytz_zones": len(pz)}
-    ctx.assumptions += ["instants before the first generated onset are excluded (the component says it only works inside its window)",
+    ctx.assumptions += ["the window is [first_date 00:00, last_date 00:00) in the zone's own local time as the provider localises it; instants before it are excluded",
                         "ground truth: TZif reader (zoneinfo) / the provider's transition table (pytz); the provider object itself is used only to place the window"]
     ctx.limit = 600.0
 
@@ -471,6 +474,18 @@ def run(ctx):
                            (not ctx.quick) or provider == "pytz" or (ki % 3 == ctx.seed % 3 and wi == 0))
 
     ctx.explore("zones x windows", gen, run_case, recheck=False)
+
+    def gen_mid():
+        # two-year windows that START inside the daylight-saving period of the northern (July) / southern (mid January)
+        # hemisphere, so that the observance in effect at the start comes round again inside the window
+        for provider in env.PROVIDERS:
+            for ki, key in enumerate(zi if provider == "zoneinfo" else pz):
+                if ctx.quick and provider == "pytz" and ki % 8 != ctx.seed % 8:
+                    continue
+                for w0, w1 in (((2021, 7, 1), (2023, 7, 1)), ((2021, 1, 15), (2023, 1, 15)), ((1996, 7, 10), (1998, 8, 20))):
+                    yield ("z", provider, key, w0, w1, False)
+
+    ctx.explore("windows-starting-in-daylight-time", gen_mid, run_case, recheck=False)
 
     def gen_switch():
         for key in SWITCH_ZONES:
